@@ -136,9 +136,20 @@ def run(ctx):
         second = rng.random() < 0.12
         kind = rng.choice(["tri", "tri", "quad", "quad", "tet", "hex", "line"])
         m0, info = meshes.gen_first_order(rng, kind, holes=(rng.random() < 0.15))
-        if m0.nelements < 2 or m0.nelements > 30 or not (m0.f2t[1] >= 0).any():
+        if rng.random() < (0.5 if kind in ("tri", "tet") else 0.25) and kind in ("line", "tri", "quad", "tet"):
+            # meshes as obtained from the library's own operations (adaptive / uniform refinement, restriction)
+            m0, ops = meshes.derive(rng, m0, kind)
+            info = dict(info, derived=ops)
+            ctx.count("derived-mesh")
+        if m0.nelements < 2 or m0.nelements > 60 or not (m0.f2t[1] >= 0).any():
             continue
         cands = [(nm, f) for (nm, f) in elements.pool()[kind]]
+        if rng.random() < 0.35:
+            # elements whose continuity depends on the facet parametrisation: several DOFs per facet/edge or
+            # globally defined functionals
+            multi = [(nm, f) for (nm, f) in cands
+                     if max(int(f().facet_dofs), int(f().edge_dofs)) >= 2 or elements.family(f()) == "global"]
+            cands = multi or cands
         name, fac = rng.choice(cands)
         e = fac()
         base = name.split("(")[0]
